@@ -885,3 +885,29 @@ mut("C02", "r15-fstree-delete-ignores-all-errors", "database/storage/fstree/fstr
 mut("C04", "r11-load-tolerates-permission-error", "config/main.go",
     "\tif err != nil && !errors.Is(err, fs.ErrNotExist) {\n\t\treturn fmt.Errorf(\"failed to load config file: %w\", err)\n\t}", "\tif err != nil && !errors.Is(err, fs.ErrNotExist) && !errors.Is(err, fs.ErrPermission) {\n\t\treturn fmt.Errorf(\"failed to load config file: %w\", err)\n\t}",
     "C04-R11|config.start / error call:config.loadConfig")
+
+# A14 sibling agreement: one-sided edits
+clone("C04-r10-replace-keeps-old-value", "C04", "r12-replace-siblings-disagree", "C04-R12|config.ReplaceConfig ~ config.ReplaceDefaultConfig", "one-sided edit (round-4 seed C04-d2)")
+clone("C15-r6-low-prio-medium-default", "C15", "r8-run-siblings-disagree", "C15-R8|modules.(*Module).RunMicroTask ~ modules.(*Module).RunLowPriorityMicroTask", "one-sided edit (round-4 seed C15-d1)")
+mut("C15", "r8-low-clearance-no-count", "modules/microtasks.go",
+    "\t\tcase lowPriorityClearance <- signal:\n\t\tcase <-time.After(maxDelay):\n\t\t\t// Start without clearance and increase microtask counter.\n\t\t\tatomic.AddInt32(microTasks, 1)\n\t\t\treturn",
+    "\t\tcase lowPriorityClearance <- signal:\n\t\tcase <-time.After(maxDelay):\n\t\t\t// Start without clearance.\n\t\t\treturn",
+    "C15-R8|modules.getMediumPriorityClearance ~ modules.getLowPriorityClearance")
+mut("C02", "r16-bytes-accessor-int-accepts-strings", "database/accessor/accessor-json-bytes.go",
+    "\tif !result.Exists() || result.Type != gjson.Number {\n\t\treturn 0, false\n\t}\n\treturn result.Int(), true", "\tif !result.Exists() {\n\t\treturn 0, false\n\t}\n\treturn result.Int(), true",
+    "C02-R16|database/accessor.(*JSONAccessor).GetInt ~ database/accessor.(*JSONBytesAccessor).GetInt")
+mut("C03", "r10-crownjewel-setter-not-writeable-checked", "database/interface.go",
+    "func (i *Interface) MakeCrownJewel(key string) error {\n\tr, db, err := i.getRecord(getDBFromKey, key, true)", "func (i *Interface) MakeCrownJewel(key string) error {\n\tr, db, err := i.getRecord(getDBFromKey, key, false)",
+    "C03-R10|database.(*Interface).MakeSecret ~ database.(*Interface).MakeCrownJewel")
+mut("C11", "r11-or-check-stops-at-first", "database/query/condition-or.go",
+    "\t\terr = cond.check()\n\t\tif err != nil {\n\t\t\treturn err\n\t\t}\n\t}\n\treturn nil", "\t\terr = cond.check()\n\t\treturn err\n\t}\n\treturn nil",
+    "C11-R11|database/query.(*andCond).check ~ database/query.(*orCond).check")
+mut("C08", "r10-wrapper-envelope-without-version", "database/record/wrapper.go",
+    "\t// version\n\tc := container.New([]byte{1})\n\n\t// meta\n\tmetaSection, err := dsd.Dump(w.meta, dsd.GenCode)", "\t// version\n\tc := container.New()\n\n\t// meta\n\tmetaSection, err := dsd.Dump(w.meta, dsd.GenCode)",
+    "C08-R10|database/record.(*Base).MarshalRecord ~ database/record.(*Wrapper).MarshalRecord")
+mut("C12", "r11-basic-auth-endpoint-always-ok", "api/endpoints_meta.go",
+    "func authBasic(w http.ResponseWriter, r *http.Request) {\n\t// Check if authenticated by checking read permission.\n\tar := GetAPIRequest(r)\n\tif ar.AuthToken.Read != PermitAnyone {", "func authBasic(w http.ResponseWriter, r *http.Request) {\n\t// Check if authenticated by checking read permission.\n\tar := GetAPIRequest(r)\n\tif ar.AuthToken.Read >= PermitAnyone {",
+    "C12-R11|api.authBearer ~ api.authBasic")
+mut("C09", "r11-response-loader-ignores-content-type", "formats/dsd/http.go",
+    "\treturn loadFromHTTP(resp.Body, resp.Header.Get(httpHeaderContentType), t)", "\treturn loadFromHTTP(resp.Body, \"\", t)",
+    "C09-R11|formats/dsd.LoadFromHTTPRequest ~ formats/dsd.LoadFromHTTPResponse")
